@@ -217,12 +217,13 @@ def find_witness(d, rng, tries=40, pred=None):
 
 # ---------------------------------------------------------------------------- replay files
 def write_replay(prop, rec, extra=None):
-    os.makedirs(os.path.join(VERIF, "replay"), exist_ok=True)
+    rdir = os.environ.get("VF_REPLAY_DIR") or os.path.join(VERIF, "replay")
+    os.makedirs(rdir, exist_ok=True)
     body = {"property": prop, "obligation": rec["name"], "short": rec.get("short"), "cfg": rec.get("cfg"),
             "status": rec["status"], "backend": rec["backend"], "detail": rec.get("detail"),
             "witness": rec.get("witness"), "replayed": rec.get("replayed"), "extra": extra}
     h = hashlib.sha1(json.dumps([prop, rec["name"]], sort_keys=True).encode()).hexdigest()[:12]
-    path = os.path.join(VERIF, "replay", "%s-%s.json" % (prop, h))
+    path = os.path.join(rdir, "%s-%s.json" % (prop, h))
     with open(path, "w") as f:
         json.dump(body, f, indent=1, default=str)
     return path
